@@ -319,40 +319,143 @@ def compare_spec_model(chk, prop_key_prefix, model_blocks, model_h2f, blocks):
     return ok and okh
 
 
-# ---- theorem statements pinned --------------------------------------------
+# ---- a third oracle whose DENOTATION is not ours: CPython's binary16 codec ------------------
 
-def theorem_statements(path):
-    """{name: sha256 of the whitespace-normalised statement (text from `theorem name` to `:=`)}"""
-    import hashlib, re
-    src = lib.strip_lean_comments(open(path).read())
-    res = {}
-    for m in re.finditer(r"^\s*theorem\s+(\S+)(.*?):=", src, re.S | re.M):
-        res[m.group(1)] = hashlib.sha256(re.sub(r"\s+", " ", m.group(2)).strip().encode()).hexdigest()[:16]
-    return res
+def _cpython_block(b):
+    """first disagreement between halfspec.spec_f2h and CPython's struct 'e' codec (PyFloat_Pack2: IEEE binary16,
+    round-half-even, OverflowError from 65520) on the non-NaN floats of block b, or None"""
+    import struct
+    lo = b << 16
+    pk, up, f = struct.pack, struct.unpack, halfspec.spec_f2h
+    for u in range(lo, lo + 65536):
+        m = u & 0x7fffffff
+        if m > 0x7f800000:
+            continue
+        x = up("<f", pk("<I", u))[0]
+        try:
+            r = up("<H", pk("<e", x))[0]
+        except OverflowError:              # |x| >= 65520 (finite): IEEE says infinity
+            r = ((u >> 16) & 0x8000) | 0x7c00
+        if r != f(u):
+            return (u, r, f(u))
+    return None
 
 
-def check_statement_pins(chk, path, pinfile, prop_key_prefix):
-    """Names in `required=` protect against deletion, not against weakening (an added hypothesis).
-    The statement text of every theorem is pinned in tools/pins/<pinfile>; a changed statement is
-    reported until it is re-pinned deliberately (`python3 tools/halfcorr.py pin`)."""
-    import json
-    pp = os.path.join(lib.VERIF, "tools", "pins", pinfile)
-    cur = theorem_statements(path)
-    try:
-        pins = json.load(open(pp))
-    except (OSError, ValueError):
-        pins = {}
-    changed = sorted(n for n in pins if n in cur and cur[n] != pins[n])
-    gone = sorted(n for n in pins if n not in cur)
-    unpinned = sorted(n for n in cur if n not in pins)
-    ok = not changed and not gone and bool(pins)
-    chk.oblige("statements-pinned:%s (%d theorems)" % (os.path.basename(path), len(pins)), "audit", ok,
-               {"changed": changed, "missing": gone, "unpinned": unpinned} if (changed or gone or unpinned) else None)
-    if not ok:
-        chk.fail("statements-pinned:" + os.path.basename(path), "%s:statement-changed:%s" % (prop_key_prefix, (changed + gone + ["no-pins"])[0]),
-                 "theorem statement(s) differ from the pinned text (weakened/edited?) — re-pin deliberately if intended",
-                 {"changed": changed, "missing": gone}, False)
-    return ok
+def compare_spec_cpython(chk, prop_key_prefix, blocks):
+    """halfspec.py shares its closed-form denotation (hval24/fval149) with the Lean spec; only its rounding step
+    (bisection + midpoint compare) is independent.  CPython's struct codec for binary16 ('e') and binary32 ('f') is
+    an implementation that shares neither: compare it with halfspec on the listed blocks (float->half, non-NaN) and on
+    all non-NaN halves (half->float)."""
+    import struct
+    from concurrent.futures import ProcessPoolExecutor
+    with ProcessPoolExecutor(max_workers=min(lib.NCPU, 16)) as ex:
+        bad = [r for r in ex.map(_cpython_block, blocks, chunksize=max(1, len(blocks) // 64)) if r]
+    ok = not bad
+    chk.oblige("spec-vs-cpython:f2h halfspec.py = CPython struct 'e' codec (independent denotation):%d-blocks" % len(blocks),
+               "correspondence", ok)
+    chk.count(len(blocks) << 16, (len(blocks) << 16) - 2)
+    if bad:
+        u, r, sp = bad[0]
+        chk.fail("spec-vs-cpython:f2h", "%s:spec-vs-cpython:f2h:0x%08x" % (prop_key_prefix, u),
+                 "the executable specification disagrees with CPython's IEEE binary16 encoder",
+                 {"float_bits": "0x%08x" % u, "cpython": "0x%04x" % r, "halfspec": "0x%04x" % sp}, True)
+    badh = None
+    for h in range(65536):
+        if (h & 0x7c00) == 0x7c00 and (h & 0x3ff):
+            continue
+        x = struct.unpack("<e", struct.pack("<H", h))[0]
+        r = struct.unpack("<I", struct.pack("<f", x))[0]
+        if r != halfspec.spec_h2f(h):
+            badh = (h, r)
+            break
+    chk.oblige("spec-vs-cpython:h2f halfspec.py = CPython struct 'e' decoder:all non-NaN halves", "correspondence", badh is None)
+    chk.count(65536 - 2046, 65536 - 2048)
+    if badh:
+        chk.fail("spec-vs-cpython:h2f", "%s:spec-vs-cpython:h2f:0x%04x" % (prop_key_prefix, badh[0]),
+                 "the executable specification disagrees with CPython's IEEE binary16 decoder",
+                 {"half_bits": "0x%04x" % badh[0], "cpython": "0x%08x" % badh[1], "halfspec": "0x%08x" % halfspec.spec_h2f(badh[0])}, True)
+    return ok and badh is None
+
+
+# ---- composition on the real code ------------------------------------------------------------
+
+def compare_roundtrip(chk, name, binary, prop_key_prefix, model_h2f, apis=("c", "cxx"), canon=False):
+    """half -> float -> half executed on the REAL code through each api for all 2^16 patterns, against the model's
+    f2h (h2f h) (driver), which must itself be the identity on every non-NaN pattern (theorem roundtrip)."""
+    rc, out = lib.sh([DRV, "f2h"] + ["%x" % x for x in model_h2f], timeout=600)
+    want = [int(x, 16) for x in out.split()]
+    okm = rc == 0 and len(want) == 65536 and all(want[h] == h for h in range(65536) if not ((h & 0x7c00) == 0x7c00 and (h & 0x3ff)))
+    if canon:
+        want = [halfspec.canon16(x) for x in want]
+    nbad = 0
+    for api in apis:
+        rc, out = lib.sh([binary, "roundtrip_all", api, "1" if canon else "0"], timeout=300)
+        try:
+            got = [int(x, 16) for x in out.split()]
+        except ValueError:
+            got = []
+        ok = okm and rc == 0 and got == want
+        chk.oblige("corr:%s:roundtrip half->float->half on the real code:%s:all-2^16" % (name, api), "correspondence", ok)
+        chk.count(65536, 65534)
+        if not ok:
+            nbad += 1
+            d = [h for h in range(min(len(got), len(want))) if got[h] != want[h]]
+            chk.fail("corr:%s:roundtrip" % name, "%s:roundtrip:%s%s" % (prop_key_prefix, name, (":0x%04x" % d[0]) if d else ""),
+                     "half->float->half on the real code differs from the model composition in configuration %s (%s api)" % (name, api),
+                     {"half_bits": "0x%04x" % d[0], "implementation": "0x%04x" % got[d[0]], "model": "0x%04x" % want[d[0]],
+                      "replay_cmd": "%s roundtrip_all %s %d | sed -n %dp" % (os.path.relpath(binary, lib.VERIF), api, 1 if canon else 0, d[0] + 1)}
+                     if d else {"harness_rc": rc, "lines": len(got), "model_identity_on_non_nan": okm}, bool(d))
+    return nbad
+
+
+# ---- what a compiled object contains -----------------------------------------------------------
+
+TABLE_SYM = "imath_half_to_float_table"
+
+
+def object_facts(obj):
+    """nm / objdump facts about a harness object: does it reference the table symbol; how many F16C conversion
+    instructions (outside the harness' own positive-control function rm_control_f16c) and their immediates"""
+    import re
+    rc, nm = lib.sh(["nm", obj], timeout=120)
+    rc2, dis = lib.sh(["objdump", "-d", "--no-show-raw-insn", obj], timeout=300)
+    dis = re.sub(r"^[0-9a-f]+ <rm_control_f16c>:\n(?:.*\n)*?(?=^\s*$|^[0-9a-f]+ <)", "", dis, flags=re.M)
+    return {"ok": rc == 0 and rc2 == 0,
+            "refs_table": bool(re.search(r"^\s+U\s+" + TABLE_SYM + r"\s*$", nm, re.M)),
+            "vcvtph2ps": len(re.findall(r"\bvcvtph2ps\b", dis)), "vcvtps2ph": len(re.findall(r"\bvcvtps2ph\b", dis)),
+            "imm8": [int(x, 16) for x in re.findall(r"\bvcvtps2ph\s+\$0x([0-9a-f]+)", dis)]}
+
+
+def harness_object(name, extra=()):
+    """compile harness/corr/half_corr.cpp alone to an object with the flags lib.cxx_build uses (+extra)"""
+    obj = os.path.join(lib.ensure_dir(os.path.join(lib.BUILD, "bin")), name + ".harness.o")
+    rc, o = lib.sh(["g++"] + lib.cxx_flags(extra) + ["-c", os.path.join(lib.VERIF, "harness", "corr", "half_corr.cpp"), "-o", obj], timeout=900)
+    return rc == 0, obj, o
+
+
+# ---- non-vacuity examples are part of the evidence -----------------------------------------------
+
+def check_example_counts(chk, prop_key_prefix, expected):
+    """`expected`: {path relative to lean/ImathVerif: minimum number of `example` blocks}.  The examples are where
+    "the hypotheses are satisfiable at a tie / a negative subnormal / -inf / an sNaN" is recorded; theorem lists and
+    statement pins do not see them, so their number is committed here and a drop is a failure."""
+    import re
+    cur, low = {}, {}
+    for rel, n in expected.items():
+        try:
+            src = lib.strip_lean_comments(open(os.path.join(lib.LEAN, "ImathVerif", rel)).read())
+        except OSError:
+            src = ""
+        cur[rel] = len(re.findall(r"^\s*example\b", src, re.M))
+        if cur[rel] < n:
+            low[rel] = {"found": cur[rel], "committed_minimum": n}
+    chk.oblige("non-vacuity examples present (%s)" % ", ".join("%s>=%d" % (os.path.basename(k), v) for k, v in sorted(expected.items())),
+               "audit", not low, low or None)
+    chk.extra["example_blocks"] = cur
+    if low:
+        chk.fail("non-vacuity examples", "%s:examples-removed:%s" % (prop_key_prefix, sorted(low)[0]),
+                 "non-vacuity `example` blocks were removed (they record that the theorems' hypotheses are satisfiable)", low, False)
+    return not low
 
 
 def compare_config(chk, name, binary, prop_key_prefix, apis=("c", "cxx"), canon=False, model_blocks=None, model_h2f=None):
@@ -424,12 +527,3 @@ def compare_config(chk, name, binary, prop_key_prefix, apis=("c", "cxx"), canon=
                      "half->float differs from the proven model in configuration %s (%s api)%s" % (name, api, tag), rep, bool(d))
     return nbad
 
-
-if __name__ == "__main__":
-    import json
-    if sys.argv[1:2] == ["pin"]:
-        for mod, pf in (("C01", "statements_c01.json"), ("C02", "statements_c02.json")):
-            st = theorem_statements(os.path.join(lib.LEAN, "ImathVerif", "Props", mod + ".lean"))
-            with open(os.path.join(lib.VERIF, "tools", "pins", pf), "w") as f:
-                json.dump(st, f, indent=1, sort_keys=True)
-            print(mod, len(st), "statements pinned")
